@@ -214,11 +214,12 @@ def _single_clip(t, under=False):
     return _single_clip(t["ch"], under)
 
 
-def thirdparty_font(sc, r, version=1, kerning=True, n_palettes=1, trees=None):
+def thirdparty_font(sc, r, version=1, kerning=True, n_palettes=1, trees=None, hhea_delta=(0, 0)):
     """MaxColor.tla scenario -> a third-party-style COLR font with exactly that glyph order and colour set.  With
     `trees` (paint graphs exported by ColrToSvg.tla) the colour glyphs carry arbitrary supported paint graphs: nested
     non-commuting transforms, colour-glyph references, opacity groups."""
     b = TP.Builder(r, n_palettes=n_palettes, with_space=False)
+    b.hhea_delta = hhea_delta
     b.order = [".notdef"]
     outlines = []
     cp = 0x1F600
@@ -425,7 +426,9 @@ def run(chk):
                 tr = None
                 if kind == "thirdparty-graphs":
                     tr = [deep[(7 * k + j) % len(deep)] for j in range(2)] + [r.choice(trees) for _ in range(2)]
-                data = thirdparty_font(what, r, version=version, n_palettes=1 + k % 2, trees=tr)
+                # every other font: hhea ascent / descent differ from the OS/2 typo metrics (fonts nanoemoji emits never do)
+                data = thirdparty_font(what, r, version=version, n_palettes=1 + k % 2, trees=tr,
+                                       hhea_delta=(150, 50) if (k + len(kind)) % 2 == 0 else (0, 0))
                 return job, run_maximum_color(work / f"{kind}-{k}", None, flags, r, font_bytes=data)
             return job, run_maximum_color(work / f"{kind}-{k}", what, flags, r)
 
